@@ -1,3 +1,9 @@
+CONSTANTS
+  B = 16
+  L = 16
+  G = 7
+  ShiftStart = 32
+  FE = 11
 SPECIFICATION Spec
 CHECK_DEADLOCK FALSE
 INVARIANTS
